@@ -245,3 +245,50 @@ def run(F, rep):
                     rep.check(fld in cov, 'C10.P1', '%s|%s' % (cls, render(b)[:60]), f.where(b), '%s::doEquals pairs the null test of %s with `%s`, which reads %s on the other object' % (cls, fld, render(cnd2)[:40], sorted(cov)[:3]), 'same attribute on both sides')
     if n_p < 2:
         raise AnalysisBroken('C10.P1: paired null tests vanished (%d found, 2 confirmed in Reset::doEquals)' % n_p)
+
+    # ------------------------------------------------------------------ U2: special values in the near-equality used for unit attributes
+    rep.rule('C10.U2', 'ulpsDistance gives up (maximal distance) exactly when an operand is NaN or exactly one operand is infinite - decided by evaluating its early-return guards on the classes {finite, infinite, NaN} x {finite, infinite, NaN}; '
+                       'two infinite operands must reach the bit comparison, otherwise units with an infinite exponent or multiplier are not equal to themselves')
+    ud = [g for g in F.funcs.values() if g.name == 'ulpsDistance' and g.file.endswith('/utilities.cpp')]
+    if len(ud) != 1:
+        raise AnalysisBroken('ulpsDistance vanished')
+    ud = ud[0]
+    pa, pb = ud.params[0]['n'], ud.params[1]['n']
+
+    def ev(e, st):
+        k = e.get('k')
+        c = e.get('c', [])
+        if k == 'Paren' and c:
+            return ev(c[0], st)
+        if k == 'Un' and e.get('op') == '!':
+            return not ev(c[0], st)
+        if k == 'Bin' and e.get('op') == '||':
+            return ev(c[0], st) or ev(c[1], st)
+        if k == 'Bin' and e.get('op') == '&&':
+            return ev(c[0], st) and ev(c[1], st)
+        if k == 'Bin' and e.get('op') in ('==', '!='):
+            v = ev(c[0], st) == ev(c[1], st)
+            return v if e['op'] == '==' else not v
+        if k == 'Call' and e.get('fn') in ('isnan', 'isinf', 'isfinite') and c:
+            arg = c[-1]
+            while arg.get('k') in ('Cast', 'Paren') and arg.get('c'):
+                arg = arg['c'][0]
+            cls_ = st.get(arg.get('n'))
+            if cls_ is None:
+                raise AnalysisBroken('ulpsDistance: %s of something that is not a parameter' % e['fn'])
+            return {'isnan': cls_ == 'nan', 'isinf': cls_ == 'inf', 'isfinite': cls_ == 'fin'}[e['fn']]
+        if k == 'Call' and e.get('conv') and c:
+            return ev(c[0], st)
+        raise AnalysisBroken('ulpsDistance: cannot interpret guard `%s`' % render(e)[:60])
+    guards = []
+    for i_ in ud.walk():
+        if i_.get('k') == 'If' and any(r.get('k') == 'Return' and r.get('c') and render(r['c'][0]) == 'max' for r in walk(role(i_, 'then') or {})):
+            guards.append(role(i_, 'cond'))
+    if not guards:
+        raise AnalysisBroken('ulpsDistance: early `return max` guards vanished')
+    for ca in ('fin', 'inf', 'nan'):
+        for cb in ('fin', 'inf', 'nan'):
+            got = any(ev(gd, {pa: ca, pb: cb}) for gd in guards)
+            want = 'nan' in (ca, cb) or ((ca == 'inf') != (cb == 'inf'))
+            rep.check(got == want, 'C10.U2', 'ulpsDistance|%s,%s' % (ca, cb), ud.where(), 'for operands (%s, %s) the early return of the maximal distance is %s, expected %s' % (ca, cb, 'taken' if got else 'not taken', 'taken' if want else 'not taken'),
+                      'maximal distance' if want else 'bit comparison')
